@@ -213,3 +213,19 @@ def check_c17_hosts(prop, tier, replay):
                                "only after 20 s of paced attempts of 4 s each",
                                "samples of real schedules (3 and 5 hosts, CheckQuorum / PreVote on and off, crash or "
                                "partition of the other replicas while the shard sleeps)"])
+
+
+def check_c12_hosts(prop, tier, replay):
+    """second engine of C12: request handles of real NodeHosts under faults always deliver a result"""
+    n, tr = (6, 4) if tier == "quick" else (24, 12)
+    batches = [{"first": k * tr, "traces": tr, "mode": "hang", "dur": 1200, "store": None} for k in range(n)]
+    return tv_run(prop, tier, replay, harness_dirs=HARNESS, pkg=".", test="TestVerifNhsim",
+                  trace_module="RequestsHostTrace", tag="RH-REPORT", count_tag="RH-COUNT",
+                  batches=batches, env_of=_env, mc=(),
+                  level="exploration", stats_tag="NHSTATS", panic_ok=True, max_workers=8,
+                  build_name="nhsim", merge_into_existing=True,
+                  what="a request handle of a running NodeHost delivered no result five seconds after its deadline",
+                  sig_of=lambda op, f: "C12:hosts:%s" % op,
+                  assumptions=["NodeHost level: the client programs and fault schedules of the C01 runs; a handle "
+                               "counts as hanging when nothing arrived 5 s after the requested deadline and the "
+                               "NodeHost that issued it is still running"])
